@@ -80,6 +80,7 @@ structure Acc where
   lastRes : String := "-"
   lastRt : String := "0"
   lastFv : FV := markNone
+  lastMod : Option Path := none
   bad : Bool := false
 
 def parseContent (names : List String) (s : String) : Option (Content × Info) :=
@@ -129,7 +130,7 @@ def stepEvent (allNames : List String) (a : Acc) (ev : String) : Acc :=
       if m ≠ "-" ∧ modif.isNone then { a with bad := true } else
       let fv := fvOf allNames.length modif
       let commit := res = "ok" ∧ rt = "0"
-      { a with r := replayJob a.tbl F a.root files a.r fv (modif.map (·.1)) commit, lastRes := res, lastRt := rt, lastFv := fv }
+      { a with r := replayJob a.tbl F a.root files a.r fv (modif.map (·.1)) commit, lastRes := res, lastRt := rt, lastFv := fv, lastMod := modif.map (·.1) }
     | _ => { a with bad := true }
   | _ => { a with bad := true }
 
@@ -168,7 +169,9 @@ def answerStep (_c i : List String) : String :=
     let files := List.range names.length
     let F := names.length + 2
     if crashed then
-      let why := if jobReusesStale a.tbl F a.root files a.r a.lastFv then "crash_reusing_typed_module_of_importer" else "crash_unexplained"
+      let why := if jobReusesStale a.tbl F a.root files a.r a.lastFv then "crash_reusing_typed_module_of_importer"
+        else if jobRetypesWithoutGc a.tbl F a.root a.r a.lastFv a.lastMod then "crash_after_retyping_without_garbage_collection"
+        else "crash_unexplained"
       s!"crash agree=1 prop=0 why={why} settle={settle} last={a.lastRes} crash={incr}"
     else
       let mc := modelCache names a.r.cacheT
